@@ -130,6 +130,10 @@ class Unsupported(InterpError):
     pass
 
 
+class ShapeMismatch(InterpError):
+    """memref.copy between views of different run-time shape (e.g. a stand-in buffer sized differently from its original)."""
+
+
 def decode_dense(values, shape, layout_recipe):
     """Logical contents (row-major list) of a buffer whose raw storage holds `values` (storage order) and whose type has
     `layout_recipe` (None = row-major). Returns (list, problems). An element whose address lies outside the stored data
@@ -258,13 +262,14 @@ class BufMachine(Machine):
         if n == "memref.copy":
             s, d = operands
             if s.shape != d.shape:
-                self.problems.append(("copy-shape-mismatch", f"{s.shape} -> {d.shape}"))
-                raise InterpError("memref.copy shape mismatch")
+                raise ShapeMismatch(f"memref.copy from a view of run-time shape {list(s.shape)} ({s.buf!r}) to one of shape {list(d.shape)} ({d.buf!r})")
             self.ncopies += 1
             self._copy(s, d)
             return []
         if n == "memref.dim":
             v, i = operands
+            if not 0 <= i < len(v.shape):
+                raise InterpError(f"memref.dim: index {i} out of range for rank {len(v.shape)}")
             return [v.shape[i]]
         if n == "memref.dealloc":
             return []
@@ -327,7 +332,7 @@ class BufMachine(Machine):
             outs = [(k, v) for k, v in mem if k >= nin]
             scal = tuple((k, v) for k, v in enumerate(operands) if not isinstance(v, View))
             read = tuple(v.read() for _, v in ins)
-            self.trace.append((tag, n, read, tuple(k for k, _ in ins)))
+            self.trace.append((tag, n, read, tuple(k for k, _ in ins), tuple(v.shape for _, v in mem)))
             taint = any(self.terms.is_tainted(t) for r in read for t in r)
             dig = self.terms.mk(("in", read, scal), taint=taint)
             self.now += 1
@@ -336,7 +341,7 @@ class BufMachine(Machine):
                 v.write([self.terms.mk(("f", tag, k, e, dig), taint=taint) for e in range(cnt)], self.now)
         else:
             read = tuple(v.read() for _, v in mem)
-            self.trace.append((tag, n, read, tuple(k for k, _ in mem)))
+            self.trace.append((tag, n, read, tuple(k for k, _ in mem), tuple(v.shape for _, v in mem)))
             taint = any(self.terms.is_tainted(t) for r in read for t in r)
             dig = self.terms.mk(("in", read), taint=taint)
             self.now += 1
@@ -395,6 +400,10 @@ def compare(terms: Terms, ref: Run, out: Run):
     for k, (ea, eb) in enumerate(zip(ta, tb)):
         if ea[0] != eb[0] or ea[1] != eb[1] or ea[3] != eb[3]:
             mis.append(("op-sequence-differs", dict(position=k, reference=[ea[0], ea[1]], transformed=[eb[0], eb[1]])))
+            return mis
+        if ea[4] != eb[4]:
+            mis.append(("operand-has-another-run-time-shape", dict(event=k, tag=ea[0], op=ea[1], expected=[list(x) for x in ea[4]],
+                                                                   got=[list(x) for x in eb[4]])))
             return mis
         for j, (ra, rb) in enumerate(zip(ea[2], eb[2])):
             d = _cmp_terms(terms, ra, rb)
